@@ -513,4 +513,54 @@ inductive Reachable (P : Params) (c : Cfg) : St → Prop
   | init : Reachable P c (initSt c P)
   | step {s s' : St} (e : Ev) : Reachable P c s → step P s e = some s' → Reachable P c s'
 
+
+/-!
+  The ORIGINAL re-initialisation protocol of xz 5.8.1 (threads reused when the thread count is unchanged:
+  `threads_stop(coder, true)` = THR_STOP to every worker, then wait until each `state == THR_IDLE`), reduced to one worker.
+  It is kept only to exhibit the two schedule-dependent defects found by this check (findings/C08-F5.md, C08-F7.md);
+  `Props/C08.lean` shows the bad states reachable. The fixed code (threads_end + join) is what `step` above models.
+-/
+namespace OldReinit
+
+inductive Pc | top | job | markIdle | tail
+  deriving DecidableEq, Repr
+
+structure S where
+  state : WState := .idle        -- thr->state
+  pc : Pc := .top
+  resStop : Bool := false
+  outPos : Nat := 0              -- bytes the worker has produced for its current Block
+  inFree : Bool := true          -- the worker is on coder->threads_free
+  coderProgOut : Nat := 12       -- coder->progress_out
+  stopping : Bool := false       -- main is inside threads_stop(wait)
+  newStream : Bool := false      -- the re-initialisation has completed
+  deriving DecidableEq, Repr
+
+inductive E | assign | stopSignal | stopWaitDone | wTop | wJob | wMarkIdle | wTail
+  deriving DecidableEq, Repr
+
+def step (s : S) : E → Option S
+  | .assign => if s.inFree ∧ ¬s.stopping then some { s with inFree := false, state := .run } else none              -- get_thread()
+  | .stopSignal => if ¬s.stopping ∧ ¬s.newStream then some { s with stopping := true, state := .stop } else none     -- threads_stop: THR_STOP
+  | .stopWaitDone =>                                                                                                 -- ... wait for THR_IDLE; reset counters
+      if s.stopping ∧ s.state = .idle then some { s with stopping := false, newStream := true, coderProgOut := 12 } else none
+  | .wTop =>
+      if s.pc = .top then
+        match s.state with
+        | .stop => some { s with state := .idle }                               -- STOP -> IDLE, keep waiting
+        | .run | .finish => some { s with pc := .job, outPos := 16 }
+        | _ => none
+      else none
+  | .wJob =>
+      if s.pc = .job then some { s with pc := .markIdle, resStop := s.state = .stop, outPos := s.outPos + 100 } else none
+  | .wMarkIdle => if s.pc = .markIdle then some { s with pc := .tail, state := .idle } else none
+  | .wTail =>                                                                    -- under coder->mutex: progress, push to threads_free
+      if s.pc = .tail then some { s with pc := .top, coderProgOut := s.coderProgOut + s.outPos, outPos := 0, inFree := true } else none
+
+def run (s : S) : List E → Option S
+  | [] => some s
+  | e :: es => (step s e).bind fun s' => run s' es
+
+end OldReinit
+
 end XzVerif.MtEnc
